@@ -159,3 +159,166 @@ Example C13_truncate_nonvacuous :
   option_map (fun L' => existsb (fun c => negb (Z.eqb (fst c) 0) || negb (Z.eqb (snd c) 0)) (skipn 8 (crossing L')))
              (vertices_to_polygon C13_square2 None) = Some true.
 Proof. repeat split; vm_compute; reflexivity. Qed.
+
+(* ------------------------------------------------------------------ truncation: the new polygon is a face *)
+(* Clause "the new polygon as an extra plaquette" (supersedes the NOT-covered note at the top of this file for this
+   clause; proofs in Proofs/TruncateFacesGeom.v, TruncateFacesRot.v, TruncateFaces.v).  Setting, for every
+   well-formed lattice L without self-loops, every selection vs and every truncated vertex v (selected, degree
+   d > 2), L' = the lattice returned by vertices_to_polygon:
+     e_u = nth u (sorted_adj L v) 0   u-th edge at v, clockwise          w_u = wv L v u   its outward vector
+     cn L vs v u = base_index v + u   the corner on e_u                   pe L vs v u = nE L + sumdeg v + u
+     pu d u = (u - 1) mod d                                               the polygon edge cn u -> cn (u+1)
+   Hypothesis turns_cw L v = true (a boolean predicate): w_u x w_{u+1 mod d} < 0 for all u < d, i.e. each outward
+   vector at v is followed clockwise by the next after a turn of more than 0 and less than pi. *)
+From Koala Require Import Proofs.LatticeFacts Proofs.TruncateFacesGeom Proofs.TruncateFacesRot Proofs.TruncateFaces.
+
+(* (1a) no hypothesis on angles: L' is again well-formed and loop-free; the rotation-system row of corner u has
+   exactly three entries: the shortened original edge e_u, the polygon edge to the next corner and the one from
+   the previous corner; their outward vectors are lam*w_u (lam = 1 or 2: original edge keeps 1 - k/3 of its
+   length), w_{u+1} - w_u and w_{u-1} - w_u (units of 1/(3 scale)) *)
+Theorem C13_truncate_corner_edges : forall (L : lattice) (vs : option (list nat)) (v u : nat),
+  wf_lattice L = true -> no_self_loops L = true -> (v < nV L)%nat -> is_truncated L vs v = true ->
+  (u < length (sorted_adj L v))%nat ->
+  exists L', vertices_to_polygon L vs = Some L' /\
+    let d := length (sorted_adj L v) in
+    let c := cn L vs v u in
+    let e := nth u (sorted_adj L v) 0%nat in
+    wf_lattice L' = true /\ no_self_loops L' = true /\ (c < nV L')%nat /\
+    Permutation.Permutation [e; pe L vs v u; pe L vs v (pu d u)] (sorted_adj L' c) /\
+    edge_at L' (pe L vs v u) = (c, cn L vs v (Nat.modulo (u + 1) d)) /\
+    edge_at L' (pe L vs v (pu d u)) = (cn L vs v (pu d u), c) /\
+    (exists lam, (0 < lam)%Z /\ outvec L' c e = vscale lam (wv L v u)) /\
+    outvec L' c (pe L vs v u) = vsub (wv L v (Nat.modulo (u + 1) d)) (wv L v u) /\
+    outvec L' c (pe L vs v (pu d u)) = vsub (wv L v (pu d u)) (wv L v u).
+Proof. exact truncate_corner_edges. Qed.
+Print Assumptions C13_truncate_corner_edges.
+
+(* (1b) under turns_cw the clockwise cyclic order at corner u (succ_in = next entry of the row, cyclically, which
+   is what the face walk of lattice.py follows) is: e_u, polygon edge to corner u+1, polygon edge to corner u-1 *)
+Theorem C13_truncate_corner_rotation : forall (L : lattice) (vs : option (list nat)) (v u : nat),
+  wf_lattice L = true -> no_self_loops L = true -> (v < nV L)%nat -> is_truncated L vs v = true ->
+  turns_cw L v = true -> (u < length (sorted_adj L v))%nat ->
+  exists L', vertices_to_polygon L vs = Some L' /\
+    let d := length (sorted_adj L v) in
+    let row := sorted_adj L' (cn L vs v u) in
+    let e := nth u (sorted_adj L v) 0%nat in
+    length row = 3%nat /\
+    succ_in row e = Some (pe L vs v u) /\
+    succ_in row (pe L vs v u) = Some (pe L vs v (pu d u)) /\
+    succ_in row (pe L vs v (pu d u)) = Some e.
+Proof. exact truncate_corner_rotation. Qed.
+Print Assumptions C13_truncate_corner_rotation.
+
+(* (2) the polygon edges taken backwards, c_{u0+1} -> c_{u0} -> c_{u0-1} -> ... (pwalk L vs v u0; idx d u0 t =
+   (u0 - t) mod d), form a closed orbit of the dart successor nd of L' (orbit_walk of Proofs/LatticeFacts.v: every
+   step is the nd-successor of the previous one, the first of the last, no dart twice), of length d, consistent
+   as a vertex/edge/direction walk, with no repeated edge, zero net boundary crossing and edge vectors summing
+   to zero; for every starting corner u0 *)
+Theorem C13_truncate_polygon_is_orbit : forall (L : lattice) (vs : option (list nat)) (v u0 : nat),
+  wf_lattice L = true -> no_self_loops L = true -> (v < nV L)%nat -> is_truncated L vs v = true ->
+  turns_cw L v = true -> (u0 < length (sorted_adj L v))%nat ->
+  exists L', vertices_to_polygon L vs = Some L' /\
+    let d := length (sorted_adj L v) in
+    let w := pwalk L vs v u0 in
+    orbit_walk L' w /\ length w = d /\
+    (forall t, (t < d)%nat -> nth t w (0, 0, true)%nat =
+       (pe L vs v (idx d u0 t), cn L vs v (Nat.modulo (idx d u0 t + 1) d), false)) /\
+    (forall u, (u < d)%nat -> nd L' (pe L vs v u, false) = Some (pe L vs v (pu d u), false)) /\
+    walk_ok L' w (snd (fst (hd (0, 0, true)%nat w))) /\
+    NoDup (walk_edges w) /\ net_crossing L' w = vzero /\ vsum (map (dvec L') w) = vzero.
+Proof. exact truncate_polygon_is_orbit. Qed.
+Print Assumptions C13_truncate_polygon_is_orbit.
+
+(* (3) the polygon points of that walk are a translate of the tips of w_{u0}, w_{u0-1}, ... (tips L v u0), measured
+   in units of 1/(3 scale) instead of 1/scale: the signed area is 1/9 of that of the polygon spanned by the tips
+   of the outward vectors, a sum of the positive terms w_{u+1} x w_u; in particular it is positive *)
+Theorem C13_truncate_polygon_area_positive : forall (L : lattice) (vs : option (list nat)) (v u0 : nat),
+  wf_lattice L = true -> no_self_loops L = true -> (v < nV L)%nat -> is_truncated L vs v = true ->
+  turns_cw L v = true -> (u0 < length (sorted_adj L v))%nat ->
+  exists L', vertices_to_polygon L vs = Some L' /\
+    let w := pwalk L vs v u0 in
+    (exists T, poly_points L' w = map (vadd T) (tips L v u0)) /\
+    area2 (poly_points L' w) = area2 (tips L v u0) /\
+    (scale L' = 3 * scale L)%Z /\
+    (0 < area2 (poly_points L' w))%Z.
+Proof. exact truncate_polygon_area_positive. Qed.
+Print Assumptions C13_truncate_polygon_area_positive.
+
+(* hence (all_faces_spec of C01): the sweep over all directed edges of L' (_find_all_plaquettes before the validity
+   filters) lists the polygon as one of its face walks, with d sides; it passes the filters "no repeated edge" and
+   "zero net crossing" and has positive area, which is how the property words the orientation filter *)
+Theorem C13_truncate_polygon_is_face : forall (L : lattice) (vs : option (list nat)) (v : nat),
+  wf_lattice L = true -> no_self_loops L = true -> (v < nV L)%nat -> is_truncated L vs v = true ->
+  turns_cw L v = true ->
+  exists L' fs, vertices_to_polygon L vs = Some L' /\ all_faces L' = Some fs /\
+    exists f u0, In f fs /\ (u0 < length (sorted_adj L v))%nat /\ f_walk f = pwalk L vs v u0 /\
+      length (f_walk f) = length (sorted_adj L v) /\
+      f_nodup f = true /\ f_netzero f = true /\ (0 < f_area2 f)%Z.
+Proof. exact truncate_polygon_is_face. Qed.
+Print Assumptions C13_truncate_polygon_is_face.
+
+(* PARTIAL: the code's orientation filter is "winding number = -1" (walk_valid).  Given that the exact winding
+   number of the polygon walk is -1 the polygon is an entry of find_all_plaquettes L' with d sides
+   (plaquettes_spec of C01).  MISSING: a proof that winding (map dvec (pwalk u0)) = -1 follows from turns_cw and
+   the sortedness of sorted_adj L v (the harness checks the census on the implementation). *)
+Theorem C13_truncate_polygon_is_plaquette_partial : forall (L : lattice) (vs : option (list nat)) (v : nat),
+  wf_lattice L = true -> no_self_loops L = true -> (v < nV L)%nat -> is_truncated L vs v = true ->
+  turns_cw L v = true ->
+  exists L', vertices_to_polygon L vs = Some L' /\
+    ((forall u0, (u0 < length (sorted_adj L v))%nat -> winding (map (dvec L') (pwalk L vs v u0)) = (-1)%Z) ->
+     exists ps, find_all_plaquettes L' = Some ps /\
+       exists u0, (u0 < length (sorted_adj L v))%nat /\ In (mk_plaquette L' (pwalk L vs v u0)) ps /\
+                  n_sides (mk_plaquette L' (pwalk L vs v u0)) = length (sorted_adj L v)).
+Proof. exact truncate_polygon_is_plaquette_partial. Qed.
+Print Assumptions C13_truncate_polygon_is_plaquette_partial.
+
+(* PARTIAL, clause "every old plaquette enlarged by one side per truncated corner", local form: a face walk of L
+   that enters v along e_u leaves along e_{u+1}; in L' the same dart of e_u enters corner u, continues along the
+   polygon edge pe u to corner u+1 and leaves along e_{u+1} in the same direction: one new side at this corner.
+   MISSING: the global statement (needs the unchanged rotation system at untouched vertices, the correspondence of
+   whole orbits and the validity filters of the enlarged walks). *)
+Theorem C13_truncate_corner_detour_partial : forall (L : lattice) (vs : option (list nat)) (v u : nat) (b : bool),
+  wf_lattice L = true -> no_self_loops L = true -> (v < nV L)%nat -> is_truncated L vs v = true ->
+  turns_cw L v = true -> (u < length (sorted_adj L v))%nat ->
+  let d := length (sorted_adj L v) in
+  let e := nth u (sorted_adj L v) 0%nat in
+  let u1 := Nat.modulo (u + 1) d in
+  let e1 := nth u1 (sorted_adj L v) 0%nat in
+  dhead L (e, b) = v ->
+  exists L', vertices_to_polygon L vs = Some L' /\
+    nd L (e, b) = Some (out_dart L v e1) /\
+    dhead L' (e, b) = cn L vs v u /\
+    nd L' (e, b) = Some (pe L vs v u, true) /\
+    dhead L' (pe L vs v u, true) = cn L vs v u1 /\
+    nd L' (pe L vs v u, true) = Some (out_dart L' (cn L vs v u1) e1) /\
+    snd (out_dart L' (cn L vs v u1) e1) = snd (out_dart L v e1).
+Proof. exact truncate_corner_detour_partial. Qed.
+Print Assumptions C13_truncate_corner_detour_partial.
+
+(* non-vacuity: on the 2x2 square torus every vertex is truncated and satisfies turns_cw; the polygon of vertex 0
+   (edges 8..11, one of them with non-zero crossing on each side of the cell) is reported by find_all_plaquettes of
+   the truncated lattice as the walk pwalk 0, its winding number is -1 for every rotation (the hypothesis of the
+   partial theorem holds here), the old 4-gons have become 8-gons; the truncated lattice satisfies the hypotheses
+   again (truncation followed by truncation) *)
+Example C13_truncate_polygon_nonvacuous :
+  forallb (fun v => is_truncated C13_square2 None v && turns_cw C13_square2 v) (seq 0 4) = true /\
+  option_map (fun L' => map (fun u0 => winding (map (dvec L') (pwalk C13_square2 None 0 u0))) (seq 0 4))
+             (vertices_to_polygon C13_square2 None) = Some [-1; -1; -1; -1]%Z /\
+  option_map (fun L' => existsb (fun c => negb (Z.eqb (fst c) 0) || negb (Z.eqb (snd c) 0))
+                                (map (dcross L') (pwalk C13_square2 None 0 0)))
+             (vertices_to_polygon C13_square2 None) = Some true /\
+  option_map (fun L' => option_map (map (fun p => (p_edges p, p_dirs p))) (find_all_plaquettes L'))
+             (vertices_to_polygon C13_square2 None) =
+  Some (Some [([0; 18; 5; 21; 2; 12; 1; 11], [true; true; true; true; false; true; false; true]);
+              ([0; 8; 3; 15; 2; 22; 7; 17], [false; true; false; true; true; true; true; true]);
+              ([1; 13; 6; 20; 5; 19; 4; 10], [true; true; false; true; false; true; true; true]);
+              ([3; 9; 4; 16; 7; 23; 6; 14], [true; true; false; true; false; true; true; true]);
+              ([8; 11; 10; 9], [false; false; false; false]);
+              ([12; 15; 14; 13], [false; false; false; false]);
+              ([16; 19; 18; 17], [false; false; false; false]);
+              ([20; 23; 22; 21], [false; false; false; false])]%nat) /\
+  option_map (fun L' => walk_edges (pwalk C13_square2 None 0 0)) (vertices_to_polygon C13_square2 None)
+    = Some [8; 11; 10; 9]%nat /\
+  option_map (fun L' => forallb (fun v => is_truncated L' None v && turns_cw L' v) (seq 0 16))
+             (vertices_to_polygon C13_square2 None) = Some true.
+Proof. repeat split; vm_compute; reflexivity. Qed.
